@@ -221,13 +221,22 @@ fn tag_claim(kw: &str, config: Config, text: &str) -> Claim {
     Claim::NoClaim
 }
 
+/// the tokens it takes to put a filter chain (known / unknown filter, with an argument, chained) into any argument
+/// position of a tag: short enough to go four to five tokens deep in every keyword
+fn a_pipes() -> Vec<&'static str> {
+    vec!["x", "1", "|", UNKNOWN_FILTER, "upcase", "in", "=", ":", ","]
+}
+
 fn f_tag(report: &Report, config: Config, n: u32) {
-    let alpha = a_inner();
+    f_tag_over(report, config, n, a_inner(), "F_tag");
+}
+
+fn f_tag_over(report: &Report, config: Config, n: u32, alpha: Vec<&'static str>, label: &str) {
     let kws = keywords(config);
     let per = seq_count(alpha.len() as u64, n);
     let total = per * kws.len() as u64;
     let parser = cfgs::parser(config);
-    let fam = Fam::new(report, format!("F_tag/{}/n<={}", config.name(), n));
+    let fam = Fam::new(report, format!("{label}/{}/n<={}", config.name(), n));
     par_range(
         report,
         &fam.name,
@@ -836,6 +845,7 @@ pub fn run(tier: Tier) -> i32 {
             f_tok(&report, config, 3, " ");
         }
         f_tag(&report, config, if t { 3 } else { 2 });
+        f_tag_over(&report, config, if t { 5 } else { 4 }, a_pipes(), "F_tag_pipes");
         f_out(&report, config, if t { 4 } else { 3 });
         f_nest(&report, config);
         f_mut(&report, config, false);
